@@ -656,3 +656,29 @@ def r_hook_programs(ctx, side, only=None):
                 ctx.ob("R-HOOKPROG", "%s.%s (unrolled, %s)::%s" % (cls.name, K.HOOK, side, sub), False, msg, loc(hook, hook))
     ctx.count("hook programs unrolled", nprog)
     return verdict
+
+
+def class_lmis_symmetric(ctx, only=None):
+    """For the families whose hook is outside the hook interpreter: every class LMI built by the unrolled hook has entry (i, j) equal to entry (j, i)
+    as written (the certificate drops the multipliers of the entry equalities, which is harmless only then).  -> number of LMIs examined"""
+    repo = ctx.repo
+    spec = formula.load_spec()
+    n = 0
+    for cls in sorted([c for c in repo.all_classes() if c.name in spec.CLASSES and c.find_method(K.HOOK) is not None and (only is None or c.name in only)],
+                      key=lambda c: c.name):
+        entries = spec.CLASSES[cls.name]
+        if not any(r["dom"].startswith("lmi") for r in entries):
+            continue
+        hook = cls.find_method(K.HOOK)
+        try:
+            cfg = family_configs(repo, cls, entries)[0]
+            em_s, em_l, ex_s, ex_l, me = run_family(repo, cls, spec, entries, cfg)
+        except (AnalysisError, SortError) as ex:
+            raise AnalysisError("class LMIs of %s: hook outside the structural and the unrolling fragment (%s)" % (cls.name, ex))
+        for k, (ent, size) in enumerate(em_l):
+            n += 1
+            bad = [(i, j) for i in range(size) for j in range(i) if not ent[(i, j)].equals(ent[(j, i)])]
+            ctx.ob("R-LMIDUAL", "%s::class LMI #%d::symmetric-as-written (unrolled)" % (cls.name, k + 1), not bad,
+                   "entry (i, j) equals entry (j, i) on three samples" if not bad else
+                   "entry %s differs from its mirror: the solver is given entry equalities whose multipliers the certificate drops" % (bad[0],), loc(hook, hook))
+    return n
